@@ -207,21 +207,62 @@ def place_batch(files, variants):
 
 
 def corner_cases():
-    """deterministic files: the XML before the sections and a compressed vector as the last section ending
-    exactly at the end of the last page payload (logical stream = 1020 bytes): once with no record and no packet
-    (data offset = physical size of the file), once with one point"""
+    """deterministic files with the XML BEFORE the binary sections and a section as the very last thing of the
+    file, its end exactly on the logical end of the file (= end of the last page payload):
+    - a compressed vector without records and packets (data offset = physical size of the file), with one point,
+      with an index packet and an empty data packet;
+    - a compressed vector whose last data packet has raw length 1, 2, 3 (and 0) mod 4, so that the reader's
+      alignment after the packet lands exactly on the end of the file - and, as control, 4 bytes before it;
+      one-page and multi-page files; a last packet of one stream and of several; a FIRST packet whose padded
+      end is exactly an interior page-payload boundary;
+    - a blob of length 0, 1, 2, 3 mod 4 as the last section ending exactly at the logical end."""
     out = []
-    for types, pts, packets in ((["F"], [], []), (["F"], [["f3f800000"]], [("D", [4])]), (["I/5/5", "D"], [], [("I", 16), ("D", [0, 0])])):
-        entries = [("X",), ("P", 0, types, pts, packets)]
-        names = [["cartesianX", "cartesianY"][:len(types)]]
-        target = 1020 - 48 - specgen.entry_len(entries[1], 0)
+
+    def place_last(entries, names, cls, min_pages=1):
+        fixed = sum(specgen.entry_len(e, 0) for e in entries if e[0] != "X")
+        st0, _ = specgen.starts(entries, 0)
+        natural = len(specgen.make_xml(entries, [specgen.phys_of_log(x) + 10 ** 6 for x in st0], names))
+        pages = min_pages
+        while pages * 1020 - 48 - fixed < natural + 8 or (pages * 1020 - 48 - fixed) % 4:
+            pages += 1
+        target = pages * 1020 - 48 - fixed
         st, end = specgen.starts(entries, target)
+        assert end == pages * 1020, (end, pages)
         offs = [specgen.phys_of_log(x) for x in st]
         xml = specgen.make_xml(entries, offs, names)
         xml = xml + b"\n" * (target - len(xml))
-        out.append((entries, xml, offs, spec_line(entries, xml), None, dict(names=names, prefix=None, pair=None, cls="c03-empty-vector-at-file-end")))
-    return out
+        out.append((entries, xml, offs, spec_line(entries, xml), None, dict(names=names, prefix=None, pair=None, cls=cls)))
 
+    for types, pts, packets in ((["F"], [], []), (["F"], [["f3f800000"]], [("D", [4])]), (["I/5/5", "D"], [], [("I", 16), ("D", [0, 0])])):
+        place_last([("X",), ("P", 0, types, pts, packets)], [["cartesianX", "cartesianY"][:len(types)]], "c03-empty-vector-at-file-end")
+    byte = "I/0/255"
+    for k in (1, 2, 3, 4, 5, 6, 7):                       # raw length of the last packet = 8 + k: all residues mod 4
+        pts = [["i%d" % (17 * j % 256)] for j in range(k)]
+        for slack in (0, 4):                              # 4 = control: four spare bytes behind the packet
+            for min_pages in (1, 3):
+                place_last([("X",), ("P", slack, [byte], pts, [("D", [k])])], [["intensity"]], "c03-section-at-file-end", min_pages)
+    # several packets, the last one short; two streams in the last packet (raw = 6 + 4 + 1 + 2 = 13)
+    pts = [["i%d" % j, "i%d" % (1000 + j)] for j in range(5)]
+    place_last([("X",), ("P", 0, [byte, "I/0/65535"], pts, [("D", [4, 8]), ("G", 8), ("D", [1, 2])])], [["intensity", "rowIndex"]], "c03-section-at-file-end")
+    # a section of more than one page whose last packet ends the file: 2500 one-byte values in packets of 997 bytes
+    # (raw 1005 = 1 mod 4) and a last packet of raw length 8 + 506 = 2 mod 4
+    pts = [["i%d" % (j % 251)] for j in range(2500)]
+    place_last([("X",), ("P", 0, [byte], pts, [("D", [997]), ("D", [997]), ("D", [506])])], [["intensity"]], "c03-section-at-file-end")
+    # the FIRST packet's padded end exactly on an interior page-payload boundary (alignment onto a page boundary that
+    # is not the end of the file): blob before the vector sized so that section start + 32 + padded packet = 2040
+    for k in (1, 2, 3):
+        pts = [["i%d" % (j % 256)] for j in range(k + 3)]
+        first = 8 + k + specgen.pad4(8 + k)
+        blob_len = 2040 - 48 - 16 - 32 - first
+        ents = [("B", 0, bytes((7 * j) % 256 for j in range(blob_len))), ("P", 0, [byte], pts, [("D", [k]), ("D", [3])]), ("X",)]
+        assert specgen.entry_len(ents[0], 0) == 16 + blob_len and (48 + 16 + blob_len + 32 + first) == 2040
+        names = [["intensity"]]
+        xml, offs, end = specgen.place(ents, names, None)
+        out.append((ents, xml, offs, spec_line(ents, xml), None, dict(names=names, prefix=None, pair=None, cls="c03-packet-ends-at-page-boundary")))
+    # a blob as the last section, ending exactly at the logical end
+    for L in (0, 1, 2, 3, 4, 1019, 1021):
+        place_last([("X",), ("B", 0, bytes((3 * j + L) % 256 for j in range(L)))], [], "c03-blob-at-file-end")
+    return out
 
 
 def process(rep, impl, impl_rel, cases, acc, allow_cross):
